@@ -42,6 +42,7 @@ func poolDoc(r *rng, schema byte) []elem {
 var metaDocs = [][]elem{
 	{{"host", &val{T: 0x02, B: []byte("h1")}}, {"n", &val{T: 0x10, I: 1}}},
 	{{"host", &val{T: 0x02, B: []byte("h2")}}},
+	{}, // an empty metadata document is still a metadata document
 }
 
 // symbol alphabet of the exhaustive C07 histories
